@@ -104,6 +104,10 @@ type getStream struct {
 	mu        sync.Mutex
 	got       []*spb.GetResponse
 	failAfter int // fail the Send once this many responses were accepted (<0: never)
+	// a slow consumer: the Send of response number stallAt (0-based) takes stall
+	stallAt int
+	stall   time.Duration
+	stalled bool
 }
 
 func (g *getStream) Send(r *spb.GetResponse) error {
@@ -111,6 +115,12 @@ func (g *getStream) Send(r *spb.GetResponse) error {
 	defer g.mu.Unlock()
 	if g.failAfter >= 0 && len(g.got) >= g.failAfter {
 		return errors.New("transport is closing")
+	}
+	if g.stall > 0 && !g.stalled && len(g.got) == g.stallAt {
+		g.stalled = true
+		g.mu.Unlock()
+		time.Sleep(g.stall)
+		g.mu.Lock()
 	}
 	g.got = append(g.got, r)
 	return nil
